@@ -1,12 +1,12 @@
 package main
 
 import (
-	"regexp"
 	"fmt"
 	"go/ast"
 	"go/token"
 	"go/types"
 	"os"
+	"regexp"
 	"sort"
 	"strings"
 
@@ -858,14 +858,18 @@ func renderSkipDecision(bb *ssa.BasicBlock, k int) string {
 }
 
 func renderSkipDecision1(bb *ssa.BasicBlock, k int) string {
+	type atom struct {
+		v   ssa.Value
+		val bool
+	}
 	ifi := blockIf(bb)
-	parts := []string{renderCondV(ifi.Cond, k == 0)}
+	atoms := []atom{{ifi.Cond, k == 0}}
 	// a branch on the boolean phi of `a && b` / `a || b` (a `case a && b:` of a tagless switch, a
 	// condition bound to a local first) is rendered by the tests it implies, as the branching form is
 	if inner, _ := stripNot(ifi.Cond); inner != nil {
 		if ph, isPhi := inner.(*ssa.Phi); isPhi {
 			if facts := impliedFacts(ifi.Cond, k == 0, 0); len(facts) > 1 {
-				parts = parts[:0]
+				atoms = atoms[:0]
 				for _, f := range facts {
 					if f.v == ssa.Value(ph) {
 						continue
@@ -873,7 +877,7 @@ func renderSkipDecision1(bb *ssa.BasicBlock, k int) string {
 					if _, isP := f.v.(*ssa.Phi); isP {
 						continue
 					}
-					parts = append(parts, renderCondV(f.v, f.val))
+					atoms = append(atoms, atom{f.v, f.val})
 				}
 			}
 		}
@@ -898,8 +902,55 @@ func renderSkipDecision1(bb *ssa.BasicBlock, k int) string {
 		if idx < 0 || p.Succs[1-idx] != other || p == cur {
 			break
 		}
-		parts = append(parts, renderCondV(pif.Cond, idx == 0))
+		atoms = append(atoms, atom{pif.Cond, idx == 0})
 		cur = p
+	}
+	// `x != "a" && x != "b" && …` (a switch over literals, a chain of comparisons) is the same test
+	// as a membership test of x in the constant list {"a","b",…}: one canonical form, "!in{…}(x)"
+	if len(atoms) > 1 {
+		var ks []string
+		var subj ssa.Value
+		subjS := ""
+		ok := true
+		for _, a := range atoms {
+			inner, flip := stripNot(a.v)
+			b, isB := inner.(*ssa.BinOp)
+			if !isB || (b.Op != token.EQL && b.Op != token.NEQ) {
+				ok = false
+				break
+			}
+			if (b.Op == token.NEQ) != (a.val != flip) { // holds as an equality, not an inequality
+				ok = false
+				break
+			}
+			var c *ssa.Const
+			var x ssa.Value
+			if cc, isC := b.X.(*ssa.Const); isC {
+				c, x = cc, b.Y
+			} else if cc, isC := b.Y.(*ssa.Const); isC {
+				c, x = cc, b.X
+			}
+			if c == nil || c.Value == nil {
+				ok = false
+				break
+			}
+			xs := renderValue(x, 1)
+			if subj == nil {
+				subj, subjS = x, xs
+			} else if xs != subjS {
+				ok = false
+				break
+			}
+			ks = append(ks, c.String())
+		}
+		if ok && subj != nil {
+			sort.Strings(ks)
+			return "!in{" + strings.Join(ks, ",") + "}(" + subjS + ")"
+		}
+	}
+	var parts []string
+	for _, a := range atoms {
+		parts = append(parts, renderCondV(a.v, a.val))
 	}
 	sort.Strings(parts)
 	return strings.Join(parts, " && ")
